@@ -69,6 +69,12 @@ pub enum ResolvedRecord {
         rrs: Vec<ResourceRecord>,
         soa_rr: Option<ResourceRecord>,
     },
+    /// The name is at or beneath a delegation point of an
+    /// authoritative zone: the NS RRs of the delegation belong in the
+    /// AUTHORITY section of the response, which is not authoritative.
+    Referral {
+        ns_rrs: Vec<ResourceRecord>,
+    },
 }
 
 impl ResolvedRecord {
@@ -77,6 +83,7 @@ impl ResolvedRecord {
             ResolvedRecord::Authoritative { rrs, .. } => rrs,
             ResolvedRecord::AuthoritativeNameError { .. } => Vec::new(),
             ResolvedRecord::NonAuthoritative { rrs, .. } => rrs,
+            ResolvedRecord::Referral { .. } => Vec::new(),
         }
     }
 
@@ -85,6 +92,7 @@ impl ResolvedRecord {
             ResolvedRecord::Authoritative { soa_rr, .. } => Some(soa_rr),
             ResolvedRecord::AuthoritativeNameError { soa_rr } => Some(soa_rr),
             ResolvedRecord::NonAuthoritative { soa_rr, .. } => soa_rr.into(),
+            ResolvedRecord::Referral { .. } => None,
         }
     }
 }
